@@ -21,6 +21,7 @@ func init() {
 			"Does not decide: file contents versus an event log, behaviour under I/O failures.",
 		RuleDocs: []string{
 			"C20.R1 typestate / must-pass-through on WritingState.Stop and Start; creation sites",
+			"C20.R4 every fmt.Fprintf whose destination is a side file of the writing state (the file or its buffered writer) has a constant format string (the client's label is never the format)",
 			"C20.R2 occurrence counting of writes per call; argument provenance; control dependence of the line write; the label recorded for UNPAUSE is a part of the request text as it came (slicing, trimming, cutting a prefix), not of a copy changed by strings.ToUpper or the like",
 			"C20.R3 who-may-touch the handle fields; a side file with a buffered writer is written only through it",
 			"C20.R2 (additions) each block handler is called exactly once per block outside any loop; every successful return of the UNPAUSE arm has passed the label test",
@@ -201,6 +202,7 @@ func runC20(p *Prog, r *Report) {
 	r.MinInstances["C20.R1"] = 16
 	r.MinInstances["C20.R2"] = 8
 	r.MinInstances["C20.R3"] = 5
+	defer c20R4(p, r)
 	sfs := discoverSideFiles(p)
 	if len(sfs) != 3 {
 		r.Unk("C20.anchor", "side files of "+wsT, "-", fmt.Sprintf("expected 3 *os.File fields, found %d", len(sfs)))
@@ -617,41 +619,101 @@ func c20Events(p *Prog, r *Report, sfs []sideFile) {
 		r.Unk("C20.R2", "HandleDataDrop", "-", "anchor not found")
 	} else {
 		r.Fn(FuncName(hdd))
+		// the line may be written in the handler or in a helper of the writing state it calls
+		// (its parameters then stand for the arguments of that call)
 		var lines []ssa.Instruction
-		Instrs(hdd, func(in ssa.Instruction) {
+		var host *ssa.Function = hdd
+		var hostSite ssa.Instruction
+		isLineWrite := func(in ssa.Instruction) bool {
 			if methodCallOn(in, "dataDropFileBufferedWriter", "WriteString") {
 				// the header write has a constant argument
-				if _, isC := CallOf(in).Args[1].(*ssa.Const); !isC {
-					lines = append(lines, in)
+				_, isC := CallOf(in).Args[1].(*ssa.Const)
+				return !isC
+			}
+			if IsCallTo(in, "fmt.Fprintf") && len(CallOf(in).Args) >= 3 {
+				w := CallOf(in).Args[0]
+				if mi, ok := w.(*ssa.MakeInterface); ok {
+					w = mi.X
+				}
+				if loadsWS(w, "dataDropFileBufferedWriter") {
+					if sl, isSl := CallOf(in).Args[2].(*ssa.Slice); isSl && sl != nil {
+						return true
+					}
 				}
 			}
+			return false
+		}
+		Instrs(hdd, func(in ssa.Instruction) {
+			if isLineWrite(in) {
+				lines = append(lines, in)
+			}
 		})
-		r.Check(len(lines) == 1 && !InLoop(lines[0]), "C20.R2", "data drops: one line write per block", p.Pos(hdd.Pos()), "one WriteString of a formatted line", fmt.Sprintf("%d line writes in the handler", len(lines)))
+		if len(lines) == 0 {
+			Instrs(hdd, func(in ssa.Instruction) {
+				cc := CallOf(in)
+				if cc == nil || cc.IsInvoke() {
+					return
+				}
+				h := cc.StaticCallee()
+				if !isModuleFn(h) || len(h.Blocks) == 0 || len(h.Params) != len(cc.Args) {
+					return
+				}
+				var inner []ssa.Instruction
+				Instrs(h, func(y ssa.Instruction) {
+					if isLineWrite(y) {
+						inner = append(inner, y)
+					}
+				})
+				if len(inner) > 0 {
+					lines, host, hostSite = inner, h, in
+					r.Fn(FuncName(h))
+				}
+			})
+		}
+		r.Check(len(lines) == 1 && !InLoop(lines[0]) && (hostSite == nil || !InLoop(hostSite)), "C20.R2", "data drops: one line write per block", p.Pos(hdd.Pos()), "one write of a formatted line", fmt.Sprintf("%d line writes in the handler", len(lines)))
 		if len(lines) == 1 {
 			w := lines[0]
-			// the line is Sprintf(fmt, firstFrameIndex, droppedFrames)
+			// the line is made of (firstFrameIndex, droppedFrames), in this order: the first frame
+			// after the drop, then the number of frames dropped
+			if hostSite != nil {
+				for k, q := range host.Params {
+					c05Subst[q] = c05Describe(CallOf(hostSite).Args[k], nil, 0)
+				}
+			}
 			okLine := false
-			if call, ok := CallOf(w).Args[1].(*ssa.Call); ok && CalleeName(&call.Call) == "fmt.Sprintf" {
-				d := c05Describe(call.Call.Args[1], nil, 0)
-				_ = d
-				var elems []string
-				if sl, ok := call.Call.Args[1].(*ssa.Slice); ok {
+			var varargs ssa.Value
+			if IsCallTo(w, "fmt.Fprintf") {
+				varargs = CallOf(w).Args[2]
+			} else if call, ok := CallOf(w).Args[1].(*ssa.Call); ok && CalleeName(&call.Call) == "fmt.Sprintf" {
+				varargs = call.Call.Args[1]
+			}
+			gotLine := ""
+			if varargs != nil {
+				elems := map[int64]string{}
+				if sl, ok := varargs.(*ssa.Slice); ok {
 					if a, ok := sl.X.(*ssa.Alloc); ok {
 						for _, ref := range *a.Referrers() {
 							if ia, ok := ref.(*ssa.IndexAddr); ok {
+								k, _ := constInt(ia.Index)
 								for _, r2 := range *ia.Referrers() {
 									if st, ok := r2.(*ssa.Store); ok {
-										elems = append(elems, c05Describe(st.Val, nil, 0))
+										elems[k] = c05Describe(st.Val, nil, 0)
 									}
 								}
 							}
 						}
 					}
 				}
-				sort.Strings(elems)
-				okLine = strings.Join(elems, ",") == "droppedFrames,firstFrameIndex"
+				gotLine = elems[0] + "," + elems[1]
+				okLine = len(elems) == 2 && elems[0] == "firstFrameIndex" && elems[1] == "droppedFrames"
 			}
-			r.Check(okLine, "C20.R2", "data drops: the line holds the block's first frame and drop count", p.InstrPos(w), "Sprintf(firstFrameIndex, droppedFrames)", "the logged line is not made of the block's first frame index and dropped-frame count")
+			if hostSite != nil {
+				for _, q := range host.Params {
+					delete(c05Subst, q)
+				}
+			}
+			_ = gotLine
+			r.Check(okLine, "C20.R2", "data drops: the line holds the block's first frame and drop count", p.InstrPos(w), "Sprintf(firstFrameIndex, droppedFrames)", "the logged line is made of ("+gotLine+") in the handler's terms: it is not made of the block's first frame index and dropped-frame count")
 			// control: only droppedFrames > 0 and the activity predicate (plus nothing else)
 			var conds []string
 			bad := ""
@@ -1121,4 +1183,42 @@ func c20LabelWriter(p *Prog) *ssa.Function {
 	}
 	c20LabelWriterMemo[p] = best
 	return best
+}
+
+// ---- R4: text written to the side files is never used as a format string ----------------------
+
+// c20R4: the lines of the run's side files carry text chosen by the client (the experiment-state
+// label).  Every printf-style call whose destination is one of the side files (the file itself or
+// its buffered writer) has a constant format string; a line put together beforehand and then used
+// as the format (`fmt.Fprintf(f, line+"\n")`) has every '%' of the label taken as a verb, so the
+// line is mangled and the text meant for it spills into the next one.
+func c20R4(p *Prog, r *Report) {
+	n := 0
+	for _, fn := range p.LibFuncs() {
+		if fnPkg(fn) != p.Root.Pkg {
+			continue
+		}
+		Instrs(fn, func(in ssa.Instruction) {
+			cc := CallOf(in)
+			if cc == nil || CalleeName(cc) != "fmt.Fprintf" || len(cc.Args) < 2 {
+				return
+			}
+			w := cc.Args[0]
+			if mi, ok := w.(*ssa.MakeInterface); ok {
+				w = mi.X
+			}
+			o, f, _, okf := FieldOf(w)
+			if !okf || o != wsT {
+				return
+			}
+			n++
+			r.Fn(FuncName(fn))
+			_, isConst := cc.Args[1].(*ssa.Const)
+			r.Check(isConst, "C20.R4", fmt.Sprintf("format of the Fprintf to %s in %s", f, FuncName(fn)), p.InstrPos(in), "constant format string",
+				"the text written to the side file is used as the format string: a '%' in it (the client's label: `beam at 50%`) is read as a verb, the line comes out mangled and stray %!-text is glued to what follows, so the file no longer holds one well-formed line per accepted request")
+		})
+	}
+	if n == 0 {
+		r.OK("C20.R4", "side-file text is not used as a format string", "-", "no Fprintf to a side file of the writing state (lines are written with WriteString / Write)")
+	}
 }
